@@ -265,6 +265,14 @@ func (m stateMachine) DepthLength() (int, int64) {
 	return m.Depth(), m.Last.Length()
 }
 
+// MayPushContainer reports whether a JSON object or array may still be
+// started without exceeding the maximum nesting depth.
+// Callers that append an empty object or array directly to the output
+// (bypassing pushObject or pushArray) must check this first.
+func (m stateMachine) MayPushContainer() bool {
+	return len(m.Stack) < maxNestingDepth
+}
+
 // appendLiteral appends a JSON literal as the next token in the sequence.
 // If an error is returned, the state is not mutated.
 func (m *stateMachine) appendLiteral() error {
